@@ -221,6 +221,20 @@ register(
     "DESIGN.md §3 C20",
 )
 
+register(
+    "C10",
+    "bounded-exhaustive enumeration of every signal up to length 7 over a 6-level alphabet (integer levels x 2 tolerances, and an epsilon alphabet producing sub-tolerance steps) on both findap definitions; every cycle table of short signals and synthetic on-edge tables x all bin specifications x right x check_bounds; product grid of fdepsd options x deterministic signals, against a brute-force reversal finder, brute-force interval membership, an ASTM rainflow recount and the defining formulas",
+    "Every signal of the bounded space goes through both findap variants (the numba-branch source is executed as plain "
+    "Python) and is held to the stated invariants and, where no sub-tolerance step exists, to a brute-force "
+    "reversal finder; every table x bin specification is compared with brute-force half-open interval membership and "
+    "count conservation; every fdepsd configuration is recounted with an independent rainflow and checked for "
+    "monotone counts, Amax<=srs, G2>=G1, damage indicators, variance/peak relations, Rayleigh test damage and "
+    "amplitude-squared scaling.",
+    "Trusted: ASTM reference (vf/ref/rain_ref.py), brute-force models in vf/checks/c10.py; numba not installed; "
+    "SDOF responses recomputed with pyYeti's filter coefficients (C03).",
+    "DESIGN.md §3 C10",
+)
+
 
 def build():
     checks = []
